@@ -46,7 +46,13 @@ def schedules(tier):
     # change how long the next request waits
     # strays arriving in the last milliseconds before the deadline, then silence (a release datagram at 2.5 T ends a
     # call that would otherwise block for good)
-    out.append({"name": "E-edge", "strays": [round(1.0 - 0.0005 * i / 0.3, 5) for i in range(12, 0, -1)] + [2.5], "reply": None, "expect": "timeout"})
+    # (a 1 ms burst of 20 copies of one stray ENDING 0.3 .. 2.8 ms before the nominal deadline - the agent's clock starts a
+    # little after the client's, by an amount that depends on the configuration, so several end points are tried -
+    # then silence until a release datagram at 2.5 T)
+    for k in range(6):
+        end = 0.0003 + 0.0005 * k
+        out.append({"name": "E-edge%d" % k, "dup_burst": True, "strays": [round(1.0 - (end + 0.001 - 0.00005 * j) / T, 6) for j in range(20)] + [2.5],
+                    "reply": None, "expect": "timeout"})
     # a rate-limited session: the second request is held back by the limiter for 0.8 T; its reply, 0.5 T after it
     # was sent, is well inside the timeout and must be delivered
     out.append({"name": "P-policed", "policed": True, "seq": [
@@ -73,8 +79,11 @@ def run_case(cfg, agent, drv, sch, serial):
                 evs.append((sch["reply"] * T, "reply"))
             evs.sort()
             out = []
+            one = agent.reply(req, [B.enc_varbind(OID, B.enc_int(666))], request_id=(req.request_id + 1) & 0x7FFFFFFF) if sch.get("dup_burst") else None
             for t, kind in evs:
-                if kind == "stray":
+                if kind == "stray" and one is not None:
+                    out.append((t, one))
+                elif kind == "stray":
                     out.append((t, agent.reply(req, [B.enc_varbind(OID, B.enc_int(666))], request_id=(req.request_id + 1 + len(out)) & 0x7FFFFFFF)))
                 else:
                     out.append((t, agent.reply(req, [B.enc_varbind(OID, B.enc_int(serial))])))
@@ -175,6 +184,8 @@ def worker(job):
                 v2 = judge(sch, o2, d2, serial)
                 want = sorted(sch["strays"] + ([sch["reply"]] if sch["reply"] is not None else []))
                 on_time = len(rel2) == len(want) and all(abs(r - w * T) < 0.08 for r, w in zip(rel2, want))
+                if sch["name"].startswith("E-edge"):
+                    on_time = len(rel2) == len(want)  # the burst is sub-millisecond by design
                 notes.append((round(d2, 3), round(dr2, 3), on_time, v2[0] if v2 else None))
                 if v2 is not None and v2[0] == v[0] and dr2 <= SLACK / 4 and on_time:
                     confirmed += 1
